@@ -375,6 +375,43 @@ macro_rules! page_ops {
                 kani::cover!(n == 4 && !inclusive);
                 kani::cover!(n == 2 && inclusive && ea as u128 + SZ == 1u128 << 64);
             }
+
+            #[kani::proof]
+            #[kani::unwind(11)]
+            fn c07t_page_range_full_iteration_le8() {
+                let s = any_page::<$S>();
+                let e = any_page::<$S>();
+                let (sa, ea) = (s.start_address.as_u64(), e.start_address.as_u64());
+                kani::assume(same_half(sa, ea));
+                let inclusive: bool = kani::any();
+                let n = if inclusive {
+                    if ea >= sa { ((ea - sa) as u128 / SZ) + 1 } else { 0 }
+                } else if ea > sa { (ea - sa) as u128 / SZ } else { 0 };
+                kani::assume(n <= 8);
+                let mut count: u128 = 0;
+                let mut expect = sa as u128;
+                if inclusive {
+                    let r = Page::range_inclusive(s, e);
+                    vp!(C07, r.len() as u128 == n, "inclusive len differs from oracle");
+                    for p in r {
+                        vp!(C07, p.start_address.as_u64() as u128 == expect, "inclusive iteration not ascending page by page");
+                        expect += SZ;
+                        count += 1;
+                    }
+                } else {
+                    let r = Page::range(s, e);
+                    vp!(C07, r.len() as u128 == n, "exclusive len differs from oracle");
+                    for p in r {
+                        vp!(C07, p.start_address.as_u64() as u128 == expect, "exclusive iteration not ascending page by page");
+                        expect += SZ;
+                        count += 1;
+                    }
+                }
+                vp!(C07, count == n, "range yielded a different number of items than len()");
+                kani::cover!(n == 8 && inclusive);
+                kani::cover!(n == 8 && !inclusive);
+                kani::cover!(n == 2 && inclusive && ea as u128 + SZ == 1u128 << 64);
+            }
         }
     };
 }
